@@ -279,15 +279,19 @@ def sz_alt(t, x, p):
     return float(v if t == 11 else 1 - v)
 
 
+def _sq(v):
+    return v * v       # inf instead of OverflowError for huge quotients
+
+
 def mf_ref(t, x, p):
     """documented value (mf.h) of family t, with the core value 1 at degenerate shoulders; (value, on_core)"""
     if t == 1:
-        return _exp(-((x - p[1]) / p[0]) ** 2 / 2), x == p[1]
+        return _exp(-_sq((x - p[1]) / p[0]) / 2), x == p[1]
     if t == 2:
         if x < p[1]:
-            return _exp(-((x - p[1]) / p[0]) ** 2 / 2), False
+            return _exp(-_sq((x - p[1]) / p[0]) / 2), False
         if x > p[3]:
-            return _exp(-((x - p[3]) / p[2]) ** 2 / 2), False
+            return _exp(-_sq((x - p[3]) / p[2]) / 2), False
         return 1.0, True
     if t == 3:
         return 1.0 / (_pow(abs((x - p[2]) / p[0]), 2 * p[1]) + 1.0), x == p[2]
@@ -745,6 +749,14 @@ def gen_cases(ctx, tag="cases", scale=1.0):
             cases.append(gen_mf(r, t))
     for t in (0, 14, 15, 1000):
         cases.append({"k": "mf", "tag": t, "x": r.uniform(-3, 3), "p": [r.uniform(-3, 3) for _ in range(4)]})
+    # directed: legal but extreme widths / slopes ("for every input and every well-ordered parameter set ... in [0,1], exactly one
+    # on its core"): the quotient (x-c)/sigma is formed first by the code, so nothing overflows or underflows
+    for sg, c, xs in ((1e-170, 3.0, (3.0, 3.0 + 1e-170, 3.0 - 2e-170, 4.0)), (1e-300, 0.0, (0.0, 1e-300, -3e-300)),
+                      (1e160, 0.0, (1e160, -1e160, 0.0, 3e160)), (1e300, 5.0, (1e300, 5.0, -2e300))):
+        for x in xs:
+            cases.append({"k": "mf", "tag": 1, "x": float(x), "p": [sg, c, 0.0, 0.0]})
+            cases.append({"k": "mf", "tag": 2, "x": float(x), "p": [sg, c, sg, c]})
+            cases.append({"k": "mf", "tag": 3, "x": float(x), "p": [sg, 2.0, c, 0.0]})
     for _ in range(int((500 if q else 5000) * scale)):
         cases.append(gen_op(r))
     for _ in range(int((250 if q else 2500) * scale)):
